@@ -182,8 +182,15 @@ class Deferred(BaseDeferred):
     @classmethod
     def construct(cls, *args):  # pylint: disable=arguments-differ
         tmp = cls(*args)
-        with try_compute:
-            return tmp.wait()
+        try:
+            with try_compute:
+                return tmp.wait()
+        except DeferredCycle:
+            # The value depends on something that is being computed right now
+            # (e.g. a block compiled late, while its own size is asked for),
+            # so it is merely not ready yet; a real cycle shows when it is
+            # waited for
+            pass
         return tmp
 
     def __repr__(self):
@@ -432,8 +439,11 @@ class SizedDeferred(Deferred):
     @classmethod
     def construct(cls, typ, size, fn):  # pylint: disable=arguments-differ
         tmp = cls(typ, size, fn)
-        with try_compute:
-            return tmp.wait()
+        try:
+            with try_compute:
+                return tmp.wait()
+        except DeferredCycle:
+            pass
         return tmp
 
     def __len__(self):
